@@ -372,6 +372,19 @@ func c16WaitGroup(p *Program, r *Report) {
 				}
 				missed := ""
 				reachesWaitBeforeDone := ""
+				if deferred {
+					// a deferred Done runs after everything else in the goroutine: any Close/abort the
+					// body calls waits for this very goroutine
+					for _, b2 := range body.Blocks {
+						for _, in2 := range b2.Instrs {
+							if c, ok := in2.(*ssa.Call); ok {
+								if f := c.Call.StaticCallee(); f != nil && (f.Name() == "abort" || f.Name() == "Close") && f.Pkg != nil && isModulePkg(f.Pkg.Pkg) {
+									reachesWaitBeforeDone = p.pos(in2.Pos())
+								}
+							}
+						}
+					}
+				}
 				if !deferred {
 					// blocks reachable from entry without passing a Done call
 					isDone := func(in2 ssa.Instruction) bool {
